@@ -146,20 +146,15 @@ Proof.
 Qed.
 
 (* ------------------------------------------------------------------------------------------------ *)
-(* D30 and the other loud classes *)
-Theorem run_inputs_depth2 s vectorize depth T dt udef W inputs x0 : 2 <= depth -> inputs <> [] ->
-  run_inputs s vectorize depth T dt udef W inputs x0 = ErrAttribute.
-Proof.
-  intros Hd Hi. unfold run_inputs. destruct inputs; [congruence|]. cbn [length Nat.eqb negb andb].
-  destruct (2 <=? depth) eqn:E; [reflexivity|lia].
-Qed.
-
-Lemma refuted_depth2 :
-  run_inputs Euler true 2 (mkq 1 1) (mkq 1 4) (mkq 0 1) [[mkq 0 1]] [(A1 [mkq 1 1; mkq 2 1; mkq 4 1; mkq 8 1], [0])] [mkq 1 2] = ErrAttribute /\
-  depth_ok 2 [(A1 [mkq 1 1; mkq 2 1; mkq 4 1; mkq 8 1], [0])] = false /\
-  outcome_eqb (Rows (spec_run_inputs Euler (mkq 1 1) (mkq 1 4) (mkq 0 1) [[mkq 0 1]] [(A1 [mkq 1 1; mkq 2 1; mkq 4 1; mkq 8 1], [0])] [mkq 1 2]))
+(* regression of fix D89 (was refuted_depth2: AttributeError for any input at hierarchy depth >= 2) *)
+Lemma depth2_after_D89 :
+  outcome_eqb (run_inputs Euler true 2 (mkq 1 1) (mkq 1 4) (mkq 0 1) [[mkq 0 1]] [(A1 [mkq 1 1; mkq 2 1; mkq 4 1; mkq 8 1], [0])] [mkq 1 2])
               (Rows [[mkq 0 1; mkq 1 2]; [mkq 1 4; mkq 3 4]; [mkq 1 2; mkq 5 4]; [mkq 3 4; mkq 9 4]]) = true.
-Proof. repeat split; vm_compute; reflexivity. Qed.
+Proof. vm_compute. reflexivity. Qed.
+
+Theorem run_inputs_depth_irrelevant s vectorize depth T dt udef W inputs x0 :
+  run_inputs s vectorize depth T dt udef W inputs x0 = run_inputs s vectorize 0 T dt udef W inputs x0.
+Proof. reflexivity. Qed.
 
 (* ------------------------------------------------------------------------------------------------ *)
 (* numpy.interp on an increasing grid: clamp outside, the line through the two neighbouring samples inside *)
@@ -350,15 +345,12 @@ Proof.
 Qed.
 
 (* C08, whole runs: any network of integrators with edges, any inputs in an accepted form, any number of steps *)
-Theorem run_inputs_partial s vectorize depth T dt udef W inputs x0 :
-  inputs_guard vectorize depth T dt inputs = true -> rows_fit T dt dt = true -> frame_ok T dt = true ->
+Theorem run_inputs_full s vectorize depth T dt udef W inputs x0 :
+  inputs_guard vectorize T dt inputs = true -> rows_fit T dt dt = true -> frame_ok T dt = true ->
   run_inputs s vectorize depth T dt udef W inputs x0 = Rows (spec_run_inputs s T dt udef W inputs x0).
 Proof.
-  intros Hg Hfit Hok. unfold inputs_guard in Hg. apply andb_prop in Hg as [Hd Hall].
+  intros Hall Hfit Hok. unfold inputs_guard in Hall.
   unfold run_inputs.
-  assert (E1 : (2 <=? depth) && negb (length inputs =? 0) = false).
-  { unfold depth_ok in Hd. destruct (2 <=? depth) eqn:Ea; [|reflexivity]. destruct (length inputs =? 0) eqn:Eb; [reflexivity|lia]. }
-  rewrite E1.
   assert (E2 : forallb (accepted vectorize) inputs = true).
   { rewrite forallb_forall in *. intros inp Hin. specialize (Hall inp Hin). unfold input_ok in Hall.
     apply andb_prop in Hall as [Hall _]. apply andb_prop in Hall as [Hall _]. now apply andb_prop in Hall as [Hall _]. }
